@@ -203,6 +203,7 @@ def c19(tier):
         _ob("K-launch/split", KL, "k_launch_split", dict(max_len=3 if tier == "quick" else 5)),
         _ob("K-launch/rc", KL, "k_launch_rc", {}),
         _ob("K-launch/real", KL, "k_launch_real", {}),
+        _ob("K-launch/nonmanager", KL, "k_launch_nonmanager", {}),
         _ob("H-launch/hpc", H, "h_submit", dict(shapes=["chain2"], bss=[1, 2], maxns=[None], append_flags=True, rcs=[0, 3, 255],
                                                 cancel_flags=False), **_HO),
         _ob("H-launch/local", H, "h_submit", dict(shapes=["chain2"], bss=[2], maxns=[None], append_flags=True, rcs=[0, 255], local=True,
@@ -241,7 +242,7 @@ def obligations(prop, tier):
     table = {
         "C01": lambda t: k_batch(t, deep=True) + k_queue(t) + h_submit(t) + h_races(t, user=(t == "thorough")),
         "C02": lambda t: k_batch(t) + k_queue(t) + k_collect(t) + h_submit(t),
-        "C03": lambda t: h_submit(t) + h_races(t, double=(t == "thorough")) + k_tally(t),
+        "C03": lambda t: h_submit(t) + h_races(t, double=(t == "thorough")) + k_tally(t) + [_ob("K-launch/nonmanager", KL, "k_launch_nonmanager", {})],
         "C04": lambda t: k_queue(t) + k_collect(t) + h_submit(t),
         "C05": lambda t: k_batch(t) + h_submit(t) + h_races(t),
         "C06": lambda t: k_batch(t) + k_queue(t) + h_submit(t) + h_races(t, user=False),
